@@ -22,8 +22,15 @@ picked[0]["ens"]["tis_set"]["maxlength"] for [0+]): gen_limits runs every ordere
 lengths the two new paths need, and limits_oracle states the outcome from the property alone: each new path is
 measured against ITS OWN ensemble's limit; a path that cannot be completed below it rejects the swap (BTX for
 [0-], FTX for [0+]); otherwise the swap is accepted with exactly the complete paths.  Exceptions, exhausted
-engines and answers outside the move's answer domain on such inputs are findings with their input.  The two
-recorded deviations of the code for maxlength([0-]) > maxlength([0+]) are printed as KNOWN-FINDING.
+engines and answers outside the move's answer domain on such inputs are findings with their input.  The oracle
+is active for EVERY pair of limits (the model and all theorems are about the code after
+proposed_fixes/C11_zero_swap_own_limits.diff, which sizes and measures each new path by its own ensemble's limit).
+
+The model also carries the code before that repair (select_swap_g false false, request `swap0`; refuted by
+C11_swap_valid_limit_order_refuted / C11_quantis_limit_order_refuted).  Which of the two the tree under test has
+is found by ONE probing call per move (`probe_variant`); only the lock-step (which model variant the real
+functions are compared with) depends on the probe, the oracle never does: a tree without the repair is reported
+by the oracle with concrete failing inputs.
 """
 import importlib.util  # noqa: F401
 import itertools
@@ -37,8 +44,8 @@ META = {
     "id": "C11",
     "level": "proof",
     "technique": "Coq theorems over a literal model of retis_swap_zero / quantis_swap_zero (stop-rule invariants, abstract reversible dynamics: one engine and two different engines, one per ensemble) + scripted-oracle lock-step of the extracted model vs the real functions with two distinguishable engine objects",
-    "text": "Unbounded theorems (any paths, interface values, length limits, engine frame streams, draws, energies) about an executable model of the two zero-swap moves over the current add_to_path stop rule: junction identity as frame identities and as order values (C11_swap_junction_frames, C11_swap_junction), full shape of an accepted swap and the converse sufficient conditions (C11_swap_accepted_shape, C11_swap_accepted_if), validity of both new paths, each below ITS OWN ensemble's length limit (C11_swap_valid; the two limits maxlength([0-]) and maxlength([0+]) are separate inputs of the model), a swap that cannot complete a new path below that path's own limit is rejected BTX / FTX (C11_swap_limit_reject), the variant that sizes the forward container of the new [0+] path with the [0-] limit accepts an incomplete [0+] path (C11_forward_segment_minus_limit_refuted; C11_variant_is_code_at_plus_limit ties the variant definition to the code), lambda_-1 early rejection with no engine call and no draw (C11_lambda_m1_test, C11_lambda_m1_reject), QuanTIS energy rule u <= min(1,E) with the exponent's signs and the frames the four energies are read from (C11_quantis_accept_iff, C11_quantis_exponent), QuanTIS junction (C11_quantis_junction) and lengths below both limits (C11_quantis_own_limits), and for an abstract deterministic time-reversible engine (state space X, step T, reversal R with R.R = id, R.T.R.T = id, ord.R = ord) that the swap back is accepted and restores both order sequences (C11_swap_twice_id, C11_swap_twice_restores). Which engine object does what is part of the model (every modelled propagate call names the object it is made on: E0 = engines[-1][0] for [0-], E1 = engines[0][0] for [0+]): an accepted swap runs backward on E0 and forward on E1, every frame of the new [0-] path but the shared point old[0+][1] is a frame of the E0 call's answer and every frame of the new [0+] path but the shared point old[0-][-2] one of the E1 call's (C11_swap_engines); QuanTIS calls E0, E1, E0, E1 (C11_quantis_engines, C11_quantis_junction). With TWO different deterministic dynamics (T0,R0) for [0-] and (T1,R1) for [0+] over one phase space (simulation.ensemble_engines): the streams are the answers of exactly the engines the calls are made on (C11_two_engines_calls), the new [0-] path is the backward T0-trajectory from old[0+][0] plus the shared point and the new [0+] path the shared point plus the forward T1-trajectory from old[0-][-1] (C11_two_engines_segments), and if old [0-] is a T0-trajectory and old [0+] a T1-trajectory the swap back is accepted and both order sequences are restored, assuming time-reversibility of the [0-] engine only (C11_swap_twice_id_two_engines, C11_swap_twice_restores_two_engines; one engine is the special case T0=T1, C11_one_engine_special_case). The model is tied to /repo by running the extracted model and the real select_shoot/retis_swap_zero/quantis_swap_zero on the same old paths, settings, engine streams, draws and energies (all valid [0-]/[0+] pairs over a small integer alphabet, limits incl. exact hits, INDEPENDENT limits for the two ensembles (every ordered pair (maxlength[0-], maxlength[0+]) of a grid needed-1 / needed / needed+1 / needed+2 / much larger around the lengths the two new paths need, for all 8x8 backward x forward stream patterns incl. new paths of the minimal 3 frames, retis and quantis), lambda_minus_one on/off, wf high-acceptance swap, quantis with draws around the Metropolis threshold), always with two distinguishable engine objects whose identity is logged per call and per frame and compared with the model's, and by evaluating the property's statement on the implementation's outputs (incl. which engine produced which frames), including double swaps of the real functions with deterministic reversible integer engines: one dynamics for both ensembles and two different dynamics (one per ensemble; new paths must be trajectories of their own ensemble's dynamics, two swaps must restore both sequences; every retis swap of these also compared with the model).",
-    "note": "Trusted: Coq kernel; extraction (ExtrOcamlBasic) + OCaml driver; this harness (scripted engines built on plugins.engines.ScriptedEngine and the real add_to_path, scripted rgen, np.exp shim, canonicalisation). No axioms (every Print Assumptions is closed). exp is not modelled: its value E is computed by numpy exactly as the code does and handed to the model as the exact rational of that float; the exponent is compared exactly (dyadic energies/betas). -inf is represented in the model by an integer below every order value of the case. The order-value form of the junction assumes that an engine's first frame carries the order parameter of the phase point it was started from (propagate contract, C12); validity, limit and reversibility theorems assume maxlength([0-]) <= maxlength([0+]) (one shared tis_set in infretis: equal limits) and ordered interfaces; for maxlength([0-]) > maxlength([0+]) retis_swap_zero accepts an incomplete [0-] path (the backward container is sized with the [0+] limit: C11_swap_valid_limit_order_refuted) and quantis_swap_zero measures the [0+] path against the [0-] limit (C11_quantis_limit_order_refuted): both are reported as KNOWN-FINDING for exactly these input classes (oracle suspended there, correspondence still compared), repair proposed in proposed_fixes/C11_zero_swap_own_limits.diff. The oracle is total: an exception, an exhausted engine or an answer outside the move's answer domain on an input whose outcome the statement fixes is reported with that input. The swap never reads propagate's success flag, so it is insensitive to the add_to_path repair (C11_stop_rule_irrelevant). The QuanTIS double swap (one and two engines) is checked on the implementation only (no Coq theorem); reversibility of real MD engines is an assumption of the statement itself. Two engines: the Coq theorems allow engine-specific velocity reversals R0, R1 and need reversibility of the [0-] engine only (the [0+] engine is never run backward by the swap); the harness engines share one reversal (v -> -v) as real MD engines do. Which engine object calls dump_phasepoint (engine1 for 'second', engine0 for 'second_last' in the code) is not modelled: a dumped copy holds the same configuration whoever writes it. Engine identity in the lock-step is a label of the engine object (the prescribed orders of a call do not depend on it), in the double swaps it is a different dynamics. quantis_swap_zero has no lambda_-1 early exit: check_config rejects quantis together with lambda_minus_one.",
+    "text": "Unbounded theorems (any paths, interface values, length limits, engine frame streams, draws, energies) about an executable model of the two zero-swap moves over the current add_to_path stop rule: junction identity as frame identities and as order values (C11_swap_junction_frames, C11_swap_junction), full shape of an accepted swap and the converse sufficient conditions (C11_swap_accepted_shape, C11_swap_accepted_if), validity of both new paths, each below ITS OWN ensemble's length limit (C11_swap_valid; the two limits maxlength([0-]) and maxlength([0+]) are separate inputs of the model and every theorem holds for EVERY pair of limits), a swap that cannot complete a new path below that path's own limit is rejected BTX / FTX (C11_swap_limit_reject), the code before proposed_fixes/C11_zero_swap_own_limits.diff (kept in the model behind the boolean `fixed`: backward container of retis_swap_zero sized with the [0+] limit, quantis_swap_zero reading the [0-] limit for both paths) accepts an incomplete [0-] path / measures the [0+] path against the wrong limit, while the code handles the same inputs correctly (C11_swap_valid_limit_order_refuted, C11_quantis_limit_order_refuted), and coincides with the code when the two limits are equal (C11_before_fix_same_on_equal_limits), the variant that sizes the forward container of the new [0+] path with the [0-] limit accepts an incomplete [0+] path (C11_forward_segment_minus_limit_refuted; C11_variant_is_code_at_plus_limit ties the variant definition to the code), lambda_-1 early rejection with no engine call and no draw (C11_lambda_m1_test, C11_lambda_m1_reject), QuanTIS energy rule u <= min(1,E) with the exponent's signs and the frames the four energies are read from (C11_quantis_accept_iff, C11_quantis_exponent), QuanTIS junction (C11_quantis_junction) and each new path below its own limit for any two limits (C11_quantis_own_limits), and for an abstract deterministic time-reversible engine (state space X, step T, reversal R with R.R = id, R.T.R.T = id, ord.R = ord) that the swap back is accepted and restores both order sequences (C11_swap_twice_id, C11_swap_twice_restores). Which engine object does what is part of the model (every modelled propagate call names the object it is made on: E0 = engines[-1][0] for [0-], E1 = engines[0][0] for [0+]): an accepted swap runs backward on E0 and forward on E1, every frame of the new [0-] path but the shared point old[0+][1] is a frame of the E0 call's answer and every frame of the new [0+] path but the shared point old[0-][-2] one of the E1 call's (C11_swap_engines); QuanTIS calls E0, E1, E0, E1 (C11_quantis_engines, C11_quantis_junction). With TWO different deterministic dynamics (T0,R0) for [0-] and (T1,R1) for [0+] over one phase space (simulation.ensemble_engines): the streams are the answers of exactly the engines the calls are made on (C11_two_engines_calls), the new [0-] path is the backward T0-trajectory from old[0+][0] plus the shared point and the new [0+] path the shared point plus the forward T1-trajectory from old[0-][-1] (C11_two_engines_segments), and if old [0-] is a T0-trajectory and old [0+] a T1-trajectory the swap back is accepted and both order sequences are restored, assuming time-reversibility of the [0-] engine only (C11_swap_twice_id_two_engines, C11_swap_twice_restores_two_engines; one engine is the special case T0=T1, C11_one_engine_special_case). The model is tied to /repo by running the extracted model and the real select_shoot/retis_swap_zero/quantis_swap_zero on the same old paths, settings, engine streams, draws and energies (all valid [0-]/[0+] pairs over a small integer alphabet, limits incl. exact hits, INDEPENDENT limits for the two ensembles (every ordered pair (maxlength[0-], maxlength[0+]) of a grid needed-1 / needed / needed+1 / needed+2 / much larger around the lengths the two new paths need, for all 8x8 backward x forward stream patterns incl. new paths of the minimal 3 frames, retis and quantis), lambda_minus_one on/off, wf high-acceptance swap, quantis with draws around the Metropolis threshold), always with two distinguishable engine objects whose identity is logged per call and per frame and compared with the model's, and by evaluating the property's statement on the implementation's outputs (incl. which engine produced which frames), including double swaps of the real functions with deterministic reversible integer engines: one dynamics for both ensembles and two different dynamics (one per ensemble; new paths must be trajectories of their own ensemble's dynamics, two swaps must restore both sequences; every retis swap of these also compared with the model).",
+    "note": "Trusted: Coq kernel; extraction (ExtrOcamlBasic) + OCaml driver; this harness (scripted engines built on plugins.engines.ScriptedEngine and the real add_to_path, scripted rgen, np.exp shim, canonicalisation). No axioms (every Print Assumptions is closed). exp is not modelled: its value E is computed by numpy exactly as the code does and handed to the model as the exact rational of that float; the exponent is compared exactly (dyadic energies/betas). -inf is represented in the model by an integer below every order value of the case. The order-value form of the junction assumes that an engine's first frame carries the order parameter of the phase point it was started from (propagate contract, C12); validity theorems assume ordered interfaces; no theorem and no oracle clause restricts the two length limits (infretis itself hands both ensembles one shared tis_set, i.e. equal limits; unequal limits arise when a caller builds the ensemble dicts itself). Model and theorems are about the code AFTER proposed_fixes/C11_zero_swap_own_limits.diff (retis_swap_zero sizes the backward container with maxlen0 - 1, quantis_swap_zero reads maxlen1 from ens_set1). The code before that repair is the same model at fixed = false (retis_swap_zero_before_fix / quantis_swap_zero_before_fix, request swap0), kept for the two refutation witnesses about the ORIGINAL code. Variant of the code under test: C11 has no generated-parameter file; the check probes the real functions ONCE each (retis_swap_zero with limits 12/5: size of the container handed to the backward run, 11 = repaired, 4 = before the repair; quantis_swap_zero with limits 8/4: size of the container handed to the forward run, 3 = repaired, 7 = before); an unrepaired answer makes the LOCK-STEP compare that move with the before-fix variant of the model so that the correspondence stays meaningful; any other answer keeps the repaired model (and shows up in the lock-step). The oracle never depends on the probe: it always demands that each new path is complete and below its own ensemble's limit, so a tree without the repair is reported with concrete failing inputs (VIOLATION); the probe's answers are recorded in coverage.correspondence.variant. The oracle is total: an exception, an exhausted engine or an answer outside the move's answer domain on an input whose outcome the statement fixes is reported with that input. The swap never reads propagate's success flag, so it is insensitive to the add_to_path repair (C11_stop_rule_irrelevant). The QuanTIS double swap (one and two engines) is checked on the implementation only (no Coq theorem); reversibility of real MD engines is an assumption of the statement itself. Two engines: the Coq theorems allow engine-specific velocity reversals R0, R1 and need reversibility of the [0-] engine only (the [0+] engine is never run backward by the swap); the harness engines share one reversal (v -> -v) as real MD engines do. Which engine object calls dump_phasepoint (engine1 for 'second', engine0 for 'second_last' in the code) is not modelled: a dumped copy holds the same configuration whoever writes it. Engine identity in the lock-step is a label of the engine object (the prescribed orders of a call do not depend on it), in the double swaps it is a different dynamics. quantis_swap_zero has no lambda_-1 early exit: check_config rejects quantis together with lambda_minus_one.",
     "design_ref": "4/C11",
 }
 LEVEL = "proof"
@@ -446,9 +453,52 @@ def answer_domain_error(accept, paths, status):
     return None
 
 
+# Which zero-swap code does the tree under test have?  The model carries both: the code after
+# proposed_fixes/C11_zero_swap_own_limits.diff (request `swap` = select_swap_g true true = select_swap, what every
+# theorem but the two ..._limit_order_refuted witnesses is about) and the code before it (request `swap0` =
+# select_swap_g false false).  One probing call per move (`probe_variant`) decides which variant the LOCK-STEP
+# compares that move with; the oracle never looks at this.
+VARIANT = {"retis": {"fixed": True, "probe": None}, "quantis": {"fixed": True, "probe": None}}
+
+
+def probe_variant(TapeEngine, shim):
+    """retis_swap_zero with limits 12/5 on 3 1 3 / 1 3 1: the container handed to the backward run has 11 frames
+    (maxlen0 - 1: repaired) or 4 (maxlen1 - 1: the code before the repair).  quantis_swap_zero with limits 8/4:
+    the container handed to the forward run (4th propagate call) has 3 frames (maxlen1 read from ens_set1:
+    repaired) or 7 (read from ens_set0: before).  Any other answer (exception, fewer calls, another size) keeps
+    the repaired model, and the difference shows up in the lock-step."""
+    pr = Case(maxlen0=12, maxlen1=5, old0=(3, 1, 3), old1=(1, 3, 1), script=[(None, [1, 1, 1, 1, 1, 3]), (None, [3, 1])], direct=True)
+    pq = Case(quantis=True, maxlen0=8, maxlen1=4, old0=(3, 1, 3), old1=(1, 3, 1), v0=[0.0] * 3, v1=[0.5] * 3,
+              script=[(None, [3]), (None, [3]), (None, [1, 3]), (None, [3, 1])],
+              energies=[[0.25, 0.0], [0.5, 0.0], None, None], draws=(0.5,), betas=(1.0, 1.0), direct=True)
+    for var, case, ncall, before, what in (("retis", pr, 0, 4, "limits 12/5: container of the backward run (1st propagate call)"),
+                                           ("quantis", pq, 3, 7, "limits 8/4: container of the forward run (4th propagate call)")):
+        got = None
+        try:
+            _, raw, _ = run_impl(case, TapeEngine, shim)
+            calls = raw["tape"].calls
+            got = calls[ncall][4] if len(calls) > ncall else f"only {len(calls)} propagate calls ({raw.get('error') or raw.get('status')})"
+        except Exception as e:                  # the probe must never end the check
+            got = f"probe raised {e!r}"
+        VARIANT[var]["probe"] = f"{what} has maxlen {got}"
+        VARIANT[var]["fixed"] = got != before
+    return {k: v["fixed"] for k, v in VARIANT.items()}
+
+
+def variant_report():
+    out = {}
+    for var, fn in (("retis", "retis_swap_zero"), ("quantis", "quantis_swap_zero")):
+        v = VARIANT[var]
+        out[var] = {"probe": f"{fn}, {v['probe']}",
+                    "model_used_for_the_lock_step": (f"{fn} = {fn}_g true (each new path sized/measured by its own ensemble's limit; request swap)" if v["fixed"] else
+                                                     f"{fn}_before_fix = {fn}_g false (request swap0): the tree under test lacks proposed_fixes/C11_zero_swap_own_limits.diff "
+                                                     f"for this move; the oracle demands the repaired behaviour")}
+    return out
+
+
 def enc_request(quantis, enc_e, betas, enc_old, produced, draws, energies, evalue):
     return " ".join([
-        "swap", str(int(quantis)), enc_e[0], enc_e[1], common.qstr(betas[0]), common.qstr(betas[1]),
+        "swap" if VARIANT["quantis" if quantis else "retis"]["fixed"] else "swap0", str(int(quantis)), enc_e[0], enc_e[1], common.qstr(betas[0]), common.qstr(betas[1]),
         enc_old[0], enc_old[1], enc_streams(produced),
         ",".join(common.qstr(u) for u in draws) if draws else "-",
         ",".join(f"{k}={common.qstr(v)}" for k, v in sorted(energies.items())) if energies else "-",
@@ -603,53 +653,23 @@ def expected_by_limits(case, new0, new1):
     return "ACC"
 
 
-KNOWN_RETIS_LIMIT_ORDER = (
-    "retis_swap_zero with maxlength([0-]) > maxlength([0+]): the container of the backward run that builds the new [0-] path is "
-    "sized with the [0+] limit (tis.py: path_tmp = path_old1.empty_path(maxlen=maxlen1 - 1)); a run cut off by the [0+] limit gives "
-    "a [0-] path of maxlength([0+]) frames, which is below its own limit and gets ACC: the swap is accepted with an incomplete "
-    "new [0-] path (first frame still inside the interfaces), and a [0-] path that cannot be completed below its limit is not "
-    "rejected BTX.  Witness: limits 12/5, old paths 3 1 3 / 1 3 1, backward run 1 1 1 1 1 3, forward run 3 1 -> accepted with "
-    "new [0-] = 1 1 1 1 3.  Not reachable through infretis' own set-up (all ensembles share one tis_set, equal limits).  "
-    "Theorem C11_swap_valid_limit_order_refuted; one-line repair: proposed_fixes/C11_zero_swap_own_limits.diff")
-KNOWN_QUANTIS_LIMIT_ORDER = (
-    "quantis_swap_zero with maxlength([0-]) != maxlength([0+]): the move reads the [0-] limit for both paths (tis.py: "
-    "maxlen1 = ens_set0[\"tis_set\"][\"maxlength\"]); with maxlength([0-]) > maxlength([0+]) it accepts a new [0+] path that is "
-    "not below the [0+] limit, with maxlength([0-]) < maxlength([0+]) it rejects FTX a new [0+] path that is below it.  Witness: "
-    "limits 8/4, old paths 3 1 3 / 1 3 1, one-step frames 3 / 3, forward run 3 1 -> accepted with new [0+] = 1 3 3 1 (4 frames).  "
-    "Not reachable through infretis' own set-up (one shared tis_set).  Theorem C11_quantis_limit_order_refuted; one-line repair: "
-    "proposed_fixes/C11_zero_swap_own_limits.diff")
-
-
-def known_limit_class(case, new0, new1):
-    """the two recorded findings about unequal limits, as input classes (exactly the inputs on which the code
-    deviates from expected_by_limits on the unmodified tree)"""
-    inf = float("inf")
-    n0 = inf if new0 is None else len(new0)
-    n1 = inf if new1 is None else len(new1)
-    ml0, ml1 = case.maxlen0, case.maxlen1
-    if not case.quantis:
-        return "retis" if (ml0 > ml1 and n0 > ml1) else None
-    return "quantis" if (ml0 != ml1 and n0 < ml0 and min(ml0, ml1) <= n1 < max(ml0, ml1)) else None
-
-
 def limits_oracle(case, raw):
     """'both valid in their ensembles', each path measured against ITS OWN ensemble's length limit, and 'a swap
     that cannot complete a path within that ensemble's limit is rejected with the corresponding status'.
-    Total: an exception, an exhausted engine or an answer outside the move's answer domain on such an input is
-    a finding.  Returns (error string or None, known class or None)."""
+    Evaluated for EVERY pair of limits.  Total: an exception, an exhausted engine or an answer outside the move's
+    answer domain on such an input is a finding.  Returns an error string or None."""
     if not limits_domain(case, raw):
-        return None, None
+        return None
     new0, new1 = expected_new_paths(case)
     if (new0 is not None and len(new0) < 3) or (new1 is not None and len(new1) < 3):
-        return None, None
+        return None
     # a tape that never leaves the interfaces must outlast every container the limits allow (else the harness,
     # not the move, ends the run)
     k = 2 if case.quantis else 0
     for new, (_, rest) in ((new0, case.script[k]), (new1, case.script[k + 1])):
         if new is None and 1 + len(rest) < max(case.maxlen0, case.maxlen1):
-            return None, None
+            return None
     exp = expected_by_limits(case, new0, new1)
-    cls = known_limit_class(case, new0, new1)
     ml0, ml1 = case.maxlen0, case.maxlen1
     var = "quantis" if case.quantis else "retis"
     lim = f"limits maxlength[0-]={ml0}, maxlength[0+]={ml1}"
@@ -706,18 +726,12 @@ def limits_oracle(case, raw):
             return f"{var} zero swap with {lim}: rejected FTX but the new [0+] path carries status {p1.status}"
         return None
 
-    d = dev()
-    if d is None:
-        return None, None
-    if cls is not None:
-        return None, cls
-    return d, None
+    return dev()
 
 
 def oracle(case, raw):
     """C11 evaluated on the implementation's outputs.  Returns an error string (always naming the two length
-    limits of the case) or None; raw["known_class"] is set when the only deviation is one of the recorded
-    unequal-limit findings."""
+    limits of the case) or None.  Independent of VARIANT (the probe)."""
     err = _oracle(case, raw)
     if err and "maxlength[0-]=" not in err:
         err += f" (limits maxlength[0-]={case.maxlen0}, maxlength[0+]={case.maxlen1})"
@@ -725,17 +739,9 @@ def oracle(case, raw):
 
 
 def _oracle(case, raw):
-    raw["known_class"] = None
-    lerr, cls = limits_oracle(case, raw)
+    lerr = limits_oracle(case, raw)
     if lerr:
         return lerr
-    raw["known_class"] = cls
-    if cls is None:
-        # the input class alone (also for inputs outside limits_domain, e.g. tapes shorter than a limit)
-        try:
-            cls = known_limit_class(case, *expected_new_paths(case))
-        except (IndexError, TypeError, ValueError):
-            cls = None
     if raw["error"] or raw["bad_answer"]:
         if raw.get("unexpected_exc") or raw["bad_answer"]:
             what = raw["bad_answer"] or f"raised {raw.get('exc')}"
@@ -782,14 +788,14 @@ def _oracle(case, raw):
             return err
         # validity
         ml0, ml1 = case.maxlen0, case.maxlen1          # each path against ITS OWN ensemble's limit
-        if cls is None and not (3 <= len(n0) < ml0 and 3 <= len(n1) < ml1):
+        if not (3 <= len(n0) < ml0 and 3 <= len(n1) < ml1):
             return (f"accepted paths with lengths {len(n0)}, {len(n1)} outside [3, limit) for limits maxlength[0-]={ml0}, "
                     f"maxlength[0+]={ml1}: {n0} / {n1}")
         s0, e0, _, _ = p0.check_interfaces(list(raw["e0"]["interfaces"]))
         if not case.lm1 and ("L" in (s0, e0)):
             return f"accepted [0-] path starts/ends on the left: {n0}"
         honest = all(s[0] is None for s in case.script)
-        if both_valid and honest and cls is None:
+        if both_valid and honest:
             if e0 != "R" or s0 not in (("L", "R") if case.lm1 else ("R",)):
                 return f"accepted [0-] path {n0} has start/end {s0}/{e0}"
             if not all(left <= o <= L0 for o in n0[1:-1]):
@@ -1344,14 +1350,13 @@ def run_double_swap(ctx, VerletEngine, ds_log, quantis, lm1, names, starts, maxl
             if err:
                 errs.append(("not a trajectory", f"{who}: swap {step + 1} of {hist[-1]}: {err}"))
             g0, g1 = orders_of(n0), orders_of(n1)
-            if not quantis or ml0 <= ml1:      # quantis reads the [0-] limit for both paths: recorded finding for ml0 > ml1
-                if not (len(g0) < ml0 and len(g1) < ml1):
-                    errs.append(("not below its own limit", f"{who}: swap {step + 1} of {hist[-1]} accepted paths of {len(g0)} / {len(g1)} frames: {g0} / {g1}"))
-            if ml0 <= ml1:                     # retis sizes the backward container with the [0+] limit: recorded finding for ml0 > ml1
-                if not (g0[0] < left or g0[0] > L0):
-                    errs.append(("incomplete path", f"{who}: swap {step + 1} of {hist[-1]} accepted an incomplete new [0-] path {g0} (first frame inside the interfaces)"))
-                if not (g1[-1] < L0 or g1[-1] > LN):
-                    errs.append(("incomplete path", f"{who}: swap {step + 1} of {hist[-1]} accepted an incomplete new [0+] path {g1} (last frame inside [{L0}, {LN}])"))
+            # each new path below ITS OWN limit and complete, for every pair of limits
+            if not (len(g0) < ml0 and len(g1) < ml1):
+                errs.append(("not below its own limit", f"{who}: swap {step + 1} of {hist[-1]} accepted paths of {len(g0)} / {len(g1)} frames: {g0} / {g1}"))
+            if not (g0[0] < left or g0[0] > L0):
+                errs.append(("incomplete path", f"{who}: swap {step + 1} of {hist[-1]} accepted an incomplete new [0-] path {g0} (first frame inside the interfaces)"))
+            if not (g1[-1] < L0 or g1[-1] > LN):
+                errs.append(("incomplete path", f"{who}: swap {step + 1} of {hist[-1]} accepted an incomplete new [0+] path {g1} (last frame inside [{L0}, {LN}])"))
         err = engines_oracle(quantis, acc, n0, n1, calls)
         if err:
             errs.append(("wrong engine", f"{who}: swap {step + 1} of {hist[-1]}: {err}"))
@@ -1393,6 +1398,8 @@ def run(ctx):
     saved_np = tis.np
     tis.np = shim
     try:
+        probe_variant(TapeEngine, shim)
+        ctx.cov["variant"] = variant_report()
         cases = []
         cases += gen_limits(ctx, rng)
         cases += gen_retis_grid(ctx, rng)
@@ -1401,24 +1408,16 @@ def run(ctx):
         cases += gen_quantis(ctx, rng, 5 if quick else 6, 1500 if quick else 12000)
 
         reqs, metas = [], []
-        known_seen = {}
         for c in cases:
             ans, raw, req = run_impl(c, TapeEngine, shim)
             err = oracle(c, raw)
             reqs.append(req)
             metas.append((ans, err, c))
-            if raw["known_class"]:
-                known_seen[raw["known_class"]] = known_seen.get(raw["known_class"], 0) + 1
             var = "quantis" if c.quantis else "retis"
             if not raw["error"]:
                 ctx.dist(f"{var} status {raw['status']}")
             else:
                 ctx.dist(f"{var} status <{raw['error']}>")
-        if known_seen.get("retis"):
-            ctx.known(KNOWN_RETIS_LIMIT_ORDER)
-        if known_seen.get("quantis"):
-            ctx.known(KNOWN_QUANTIS_LIMIT_ORDER)
-        ctx.cov["known_limit_order_cases"] = dict(known_seen)
         outs = runner.run(reqs)
         corr_fail = 0
         oracle_fail, corr_bad = [], []
@@ -1435,11 +1434,13 @@ def run(ctx):
         corr_bad.sort(key=lambda t: t[:2])
         ctx.cov["oracle_failures"] = len(oracle_fail)
         seen_msgs = set()
+        per_move = {False: 0, True: 0}
         for _, req, mo, io, err, c in oracle_fail:
             kind = re.sub(r"[-\d.,\[\] ]+", " ", err)[:90]        # the message without its numbers: one replay per kind of failure
-            if kind in seen_msgs or len(seen_msgs) >= 4:
+            if kind in seen_msgs or per_move[c.quantis] >= 3:      # ... at most three kinds per move (retis / quantis)
                 continue
             seen_msgs.add(kind)
+            per_move[c.quantis] += 1
             ctx.violation(f"C11 statement fails on the implementation: {err}",
                           {"kind": "lockstep", "case": c.desc(), "impl": io, "model": mo, "request": req}, True)
         for _, req, mo, io, c in corr_bad[:2]:
@@ -1465,7 +1466,8 @@ def run(ctx):
         for names, starts in jobs:
             for quantis in (False, True):
                 for lm1 in (False, True):
-                    for maxlen in (40, 12) + (() if quantis else ((12, 40), (9, 14))):
+                    # one limit for both ensembles, and unequal limits in BOTH orders (maxlength[0-], maxlength[0+])
+                    for maxlen in (40, 12, (9, 14), (14, 9)) + (() if quantis else ((12, 40), (40, 12))):
                         errs, evaluated = run_double_swap(ctx, VerletEngine, ds_log, quantis, lm1, names, starts, maxlen)
                         if evaluated:
                             nds += 1
@@ -1506,10 +1508,10 @@ def run(ctx):
 
     ctx.cov["rule"] = ("lock-step: [0-] paths over alphabet {-1,0,1,2,3} and [0+] paths over {1,2,3,5,6} (interfaces lambda_-1=0, lambda_0=2, lambda_N=5), "
                        "lengths 3..%d, all/sampled pairs (see pair_sampling) x seeded choice of backward/forward stream pattern and length limit "
-                       "(limits chosen around the resulting lengths: exact hits included; 20%% unequal limits); a full grid of 8x8 stream patterns x all limits x "
+                       "(limits chosen around the resulting lengths: exact hits included; 20%% unequal limits, either order); a full grid of 8x8 stream patterns x all limits x "
                        "lambda_minus_one on/off on representative pairs; limit grid: for 2+2 (retis) and 2+1 (quantis) old pairs x lambda_minus_one x 8x8 stream patterns "
                        "every ordered pair (maxlength[0-], maxlength[0+]) from {n-1, n, n+1, n+2 for the needed lengths n of the two new paths (3 frames = minimum included)} + {15}, "
-                       "outcome fixed by the statement (each path against its own limit: ACC / BTX / FTX and the exact complete paths); degenerate inputs (empty/short paths, missing streams, dishonest first frames); "
+                       "outcome fixed by the statement for EVERY ordered pair, maxlength[0-] < = > maxlength[0+] alike (each path against its own limit: ACC / BTX / FTX and the exact complete paths); degenerate inputs (empty/short paths, missing streams, dishonest first frames); "
                        "wf/ss moves with interface_cap absent/4/5 and the draw on a grid around the ratio; quantis with dyadic energies, three beta pairs, "
                        "draws on a grid around min(1,E), accept_all on/off.  A case is distinct by its request line; all exercise a modelled branch. "
                        "Every case runs with two distinguishable engine objects (identity logged per call and per frame, compared with the model's c_eng and "
@@ -1518,9 +1520,10 @@ def run(ctx):
                        "(a) one dynamics for both engine objects (4 kick tables), initial pairs cut from the engine's own trajectory; (b) two different "
                        "dynamics, F0 for the [0-] engine and F1 != F0 for the [0+] engine (ordered pairs of 5 kick tables), the [0-] path cut from an "
                        "F0-trajectory and the [0+] path from an F1-trajectory (seeded states); each with retis/quantis, lambda_minus_one on/off, "
-                       "maxlength 40/12 and, retis, unequal limits 12/40 and 9/14; oracle per swap: accepted paths complete and below their own limits,  engine identities, new paths are trajectories of their own ensemble's dynamics; after two "
+                       "maxlength 40/12 and unequal limits in both orders (9/14, 14/9; retis also 12/40, 40/12); oracle per swap, for every pair of limits: accepted paths complete and below their own limits, engine identities, new paths are trajectories of their own ensemble's dynamics; after two "
                        "swaps both order sequences restored; every retis swap also compared with the extracted model." % (5 if quick else 6))
     ctx.cov["correspondence"] = {"compared": len(reqs) + corr_ds["compared"], "disagreements": corr_fail + corr_ds["disagreements"],
+                                 "variant": variant_report(),
                                  "scripted lock-step": {"compared": len(reqs), "disagreements": corr_fail},
                                  "swaps of the reversible-engine double swaps": corr_ds}
     ctx.cov["trusted_base"] += ["extraction: ExtrOcamlBasic only; ocaml/util.ml + ocaml/c11_driver.ml",
@@ -1529,9 +1532,8 @@ def run(ctx):
     ctx.assumptions += ["orders, interfaces, weights are integer-valued floats; energies/betas dyadic (float arithmetic exact)",
                         "System reduced to (order[0], config tag, vel_rev, vpot); Path attributes generated/path_number/weights not compared",
                         "-inf represented in the model by an integer below every order value of the case",
-                        "validity, limit and double-swap oracles are evaluated for valid old paths and honest engines, each new path against its own ensemble's limit; "
-                        "suspended on exactly the two recorded input classes with maxlength([0-]) > maxlength([0+]) (retis: backward run longer than the [0+] limit) / "
-                        "maxlength([0-]) != maxlength([0+]) (quantis: new [0+] length between the two limits), see KNOWN-FINDING",
+                        "validity, limit and double-swap oracles are evaluated for valid old paths and honest engines, each new path against its own ensemble's limit, "
+                        "for every pair of limits (no input class is exempt); they do not depend on the variant probe, which only selects the model variant of the lock-step",
                         "two-engine double swap: the old [0-] path is a trajectory of the [0-] engine and the old [0+] path one of the [0+] engine (as in a simulation, where each path was generated in its own ensemble); both engines share phase space, configurations, order parameter and velocity reversal"]
 
 
@@ -1544,6 +1546,8 @@ def replay(doc):
     rp = doc["replay"]
     logging.getLogger("infretis.core.tis").setLevel(logging.ERROR)
     TapeEngine, VerletEngine = make_engine_classes()
+    probe_variant(TapeEngine, NpShim(numpy))
+    print("variant of the tree under test:", json.dumps(variant_report(), indent=1))
     if rp.get("kind") == "lockstep":
         d = dict(rp["case"])
         d["script"] = [tuple(s) for s in d["script"]]
